@@ -183,6 +183,8 @@ def run_property(ctx, pid, cmd, prop_file, level_extra, e2e=0):
             inner = os.path.join(ctx.work, "replay_in.json")
             json.dump(rp.get("replay", rp), open(inner, "w"))
             extra = ["-replay", inner]
+            if isinstance(rp.get("replay", rp), dict) and rp.get("replay", rp).get("e2e"):
+                extra += ["-e2e", "1"]   # the failure was seen in the end-to-end replay: play it there again
         if e2e and not ctx.replay:
             extra = extra + ["-e2e", str(e2e if ctx.tier == "quick" else 10 * e2e)]
         m, cases, mbad, pbad, errors = runner.run("main", extra)
@@ -257,6 +259,7 @@ def run_property(ctx, pid, cmd, prop_file, level_extra, e2e=0):
         "preface_segmentations": int(meta.get("preface_cases", 0)),
         "end_to_end_histories_through_Config_Proxy": int(meta.get("e2e_played", 0)),
         "end_to_end_failures": int(meta.get("e2e_failed", 0)),
+        "end_to_end_stopped_at_map_order_difference": int(meta.get("e2e_stopped_at_map_order_difference", 0)),
         "histories": int(meta.get("cases", 0)),
         "distinct_nontrivial": nontriv,
         "rule": "histories of raw frames (<=4 streams, both directions, windows 0..70000 favouring small values, SETTINGS up/down, "
